@@ -87,6 +87,15 @@ where
             // start from there
             self.last_sent_height = Some(head.height());
             let _ = self.sender.send(head);
+        } else if self
+            .last_sent_height
+            .is_some_and(|last_sent_height| last_sent_height + 1 == head.height())
+        {
+            // Syncer re-connected and the new head directly follows the last sent height:
+            // nothing is missing in between, so forward it right away instead of holding
+            // it back until the next [`insert`].
+            self.last_sent_height = Some(head.height());
+            let _ = self.sender.send(head);
         } else {
             // Subsequent initialisations happen when syncer re-connects to the network
             // this could have caused a gap in sent heights. This will get sorted out on
